@@ -59,6 +59,8 @@ func (f *Revappend) Call(s *slip.Scope, args slip.List, depth int) slip.Object {
 		}
 	}
 	switch ta := args[1].(type) {
+	case nil:
+		// a tail of nil ends the list
 	case slip.List:
 		list = append(list, ta...)
 	default:
